@@ -9,6 +9,8 @@ import (
 	"path/filepath"
 	"sort"
 	"strings"
+	"sync"
+	"time"
 
 	"github.com/smhanov/syzgydb"
 )
@@ -117,6 +119,7 @@ func runLSHScenario(o *Opts, res *Result, sc *lshScenario, tag string, full bool
 			c.Close()
 		}
 	}()
+	pendSig, pendDetail := "", "" // first model divergence; the scenario goes on, the oracles may still find a failing input
 	live := map[uint64]bool{}
 	liveIDs := func() []uint64 {
 		ids := make([]uint64, 0, len(live))
@@ -129,7 +132,7 @@ func runLSHScenario(o *Opts, res *Result, sc *lshScenario, tag string, full bool
 	for i, op := range sc.Ops {
 		var before []*syzgydb.VerifNode
 		var oldVec []float64
-		if drv != nil && (op.K == "add" || (op.K == "del" && live[op.ID])) {
+		if drv != nil && (op.K == "add" || (op.K == "del" && live[op.ID])) && (len(live) < 300 || i%8 == 0) {
 			before = c.VerifDumpForest()
 			if live[op.ID] {
 				d, _ := c.GetDocument(op.ID)
@@ -179,7 +182,7 @@ func runLSHScenario(o *Opts, res *Result, sc *lshScenario, tag string, full bool
 			return "C05/" + kind, fmt.Sprintf("after op %d (%s %d): %v", i, op.K, op.ID, err)
 		}
 		// observable consequence: covering-radius default search returns every live document once
-		if len(ids) > 0 && (full || i%7 == 0 || i == len(sc.Ops)-1) {
+		if len(ids) > 0 && (full || i%7 == 0 || i == len(sc.Ops)-1) && (len(ids) < 300 || i%16 == 0 || i == len(sc.Ops)-1) {
 			q := make([]float64, sc.Dim)
 			d0, _ := c.GetDocument(ids[0])
 			copy(q, d0.Vector)
@@ -217,18 +220,28 @@ func runLSHScenario(o *Opts, res *Result, sc *lshScenario, tag string, full bool
 				}
 			}
 		}
-		if before != nil {
+		if before != nil && pendSig == "" {
 			if sig, detail := replayIndexOp(drv, hp, c, op, before, oldVec, wasLive); sig != "" {
-				return sig, fmt.Sprintf("after op %d (%s %d): %s", i, op.K, op.ID, detail)
+				detail = fmt.Sprintf("after op %d (%s %d): %s", i, op.K, op.ID, detail)
+				if !strings.HasPrefix(sig, "tie/") {
+					return sig, detail
+				}
+				pendSig, pendDetail = sig, detail // keep looking for a failing input on the implementation
 			}
 		}
-		if drv != nil && (full || i%5 == 0) {
+		if drv != nil && (full || i%5 == 0) && (len(ids) < 300 || i%16 == 0 || i == len(sc.Ops)-1) {
 			if sig, detail := searchTie(drv, hp, c, sc, ids, srng); sig != "" {
-				return sig, fmt.Sprintf("after op %d: %s", i, detail)
+				detail = fmt.Sprintf("after op %d: %s", i, detail)
+				if !strings.HasPrefix(sig, "tie/") {
+					return sig, detail
+				}
+				if pendSig == "" {
+					pendSig, pendDetail = sig, detail
+				}
 			}
 		}
 	}
-	return "", ""
+	return pendSig, pendDetail
 }
 
 func genLSHScenario(rng *rand.Rand, nops int, idx int) *lshScenario {
@@ -237,6 +250,12 @@ func genLSHScenario(rng *rand.Rand, nops int, idx int) *lshScenario {
 	big := idx%3 == 0 // cross the split threshold
 	if big {
 		pool = 130 + rng.Intn(150)
+	}
+	if idx%6 == 3 { // several levels of splits: more documents than the search budget of 200 visits
+		big = true
+		pool = 400 + rng.Intn(400)
+		sc.Dim = 3 + rng.Intn(6)
+		nops = pool + nops/2
 	}
 	live := map[uint64]bool{}
 	vec := func() []float64 {
@@ -276,8 +295,9 @@ func genLSHScenario(rng *rand.Rand, nops int, idx int) *lshScenario {
 // shrinkLSH removes ops while the same failure signature persists.
 func shrinkLSH(o *Opts, sc *lshScenario, sig string) *lshScenario {
 	cur := *sc
+	deadline := time.Now().Add(45 * time.Second)
 	for chunk := len(cur.Ops) / 2; chunk >= 1; chunk /= 2 {
-		for i := 0; i+chunk <= len(cur.Ops); {
+		for i := 0; i+chunk <= len(cur.Ops) && time.Now().Before(deadline); {
 			cand := cur
 			cand.Ops = append(append([]lshOp{}, cur.Ops[:i]...), cur.Ops[i+chunk:]...)
 			if s, _ := runLSHChild(o, &cand); s == sig {
@@ -293,6 +313,17 @@ func shrinkLSH(o *Opts, sc *lshScenario, sig string) *lshScenario {
 // runLSHChild runs a scenario in a child process so that a crash inside an index goroutine is an
 // outcome ("C05/process-crash") and not the end of the harness.
 func runLSHChild(o *Opts, sc *lshScenario) (string, string) {
+	sig, detail, a, b := runLSHChildStats(o, sc)
+	childMu.Lock()
+	childReplays += a
+	childSearches += b
+	childMu.Unlock()
+	return sig, detail
+}
+
+var childMu sync.Mutex
+
+func runLSHChildStats(o *Opts, sc *lshScenario) (sig, detail string, replays, searches int) {
 	f := filepath.Join(o.Scratch, fmt.Sprintf("lshchild-%d.json", rand.Int63()))
 	defer os.Remove(f)
 	writeJSON(f, sc)
@@ -300,27 +331,25 @@ func runLSHChild(o *Opts, sc *lshScenario) (string, string) {
 	out, err := cmd.CombinedOutput()
 	s := string(out)
 	if i := strings.Index(s, "LSHSTATS "); i >= 0 {
-		var a, b, c int
-		fmt.Sscanf(s[i:], "LSHSTATS replays=%d searches=%d driver_requests=%d", &a, &b, &c)
-		childReplays += a
-		childSearches += b
+		var c int
+		fmt.Sscanf(s[i:], "LSHSTATS replays=%d searches=%d driver_requests=%d", &replays, &searches, &c)
 	}
 	if i := strings.Index(s, "LSHRESULT "); i >= 0 {
 		line := strings.SplitN(s[i+10:], "\n", 2)[0]
 		parts := strings.SplitN(line, "\t", 2)
 		if len(parts) == 2 {
-			return parts[0], parts[1]
+			return parts[0], parts[1], replays, searches
 		}
-		return parts[0], ""
+		return parts[0], "", replays, searches
 	}
 	if err != nil {
 		tail := s
 		if len(tail) > 600 {
 			tail = tail[:600]
 		}
-		return "C05/process-crash", tail
+		return "C05/process-crash", tail, replays, searches
 	}
-	return "", ""
+	return "", "", replays, searches
 }
 
 var childReplays, childSearches int
@@ -369,14 +398,34 @@ func lshRun(prop string, o *Opts) {
 		res.Write(o.Out)
 		return
 	}
+	// the scenarios run in parallel child processes; results are folded in scenario order
+	type outcome struct {
+		sc            *lshScenario
+		sig, detail   string
+		replays, srch int
+	}
+	outs := make([]outcome, nscen)
+	sem := make(chan struct{}, 12)
+	var wg sync.WaitGroup
 	for i := o.Start; i < o.Start+nscen; i++ {
 		rng := rand.New(rand.NewSource(o.Seed*7919 + int64(i)))
 		sc := genLSHScenario(rng, nops, i)
 		sc.Full = prop == "C04"
-		childReplays, childSearches = 0, 0
-		sig, detail := runLSHChild(o, sc)
-		res.Histogram["index_ops_replayed_on_model"] += childReplays
-		res.Histogram["searches_compared_with_model"] += childSearches
+		wg.Add(1)
+		sem <- struct{}{}
+		go func(k int, sc *lshScenario) {
+			defer wg.Done()
+			defer func() { <-sem }()
+			sig, detail, a, b := runLSHChildStats(o, sc)
+			outs[k] = outcome{sc, sig, detail, a, b}
+		}(i-o.Start, sc)
+	}
+	wg.Wait()
+	for i := o.Start; i < o.Start+nscen; i++ {
+		oc := outs[i-o.Start]
+		sc, sig, detail := oc.sc, oc.sig, oc.detail
+		res.Histogram["index_ops_replayed_on_model"] += oc.replays
+		res.Histogram["searches_compared_with_model"] += oc.srch
 		res.Evaluations += len(sc.Ops)
 		res.TracesValidated += len(sc.Ops)
 		for j := range sc.Ops {
@@ -599,6 +648,11 @@ func searchTie(drv *Driver, hp *hpTable, c *syzgydb.Collection, sc *lshScenario,
 		hpt = append(hpt, fmt.Sprintf("%d:%d=%d", hp.id(n), math.Float64bits(d), b2i(right)))
 	}
 	f := genFilter(rng)
+	selective := len(ids) > 100 && rng.Intn(2) == 0
+	if selective { // accepts one or two live documents: the search has to get past everything else
+		a, b := ids[rng.Intn(len(ids))], ids[rng.Intn(len(ids))]
+		f = namedFilter{fmt.Sprintf("id in {%d,%d}", a, b), func(id uint64, md []byte) bool { return id == a || id == b }}
+	}
 	var cs []string
 	dist := map[uint64]float64{}
 	acc := map[uint64]bool{}
@@ -623,7 +677,7 @@ func searchTie(drv *Driver, hp *hpTable, c *syzgydb.Collection, sc *lshScenario,
 		return strings.Join(p, ",")
 	}
 	K, R := 0, 0.0
-	if rng.Intn(2) == 0 {
+	if rng.Intn(2) == 0 || selective {
 		K = 1 + rng.Intn(12)
 	} else {
 		R = rng.Float64() * 1.5
@@ -641,16 +695,16 @@ func searchTie(drv *Driver, hp *hpTable, c *syzgydb.Collection, sc *lshScenario,
 	for _, r := range real.Results {
 		rb = append(rb, fmt.Sprint(math.Float64bits(r.Distance)))
 	}
+	tieSig, tieDetail := "", ""
 	mf := strings.Fields(model)
-	if len(mf) != 3 {
-		return "tie/lsh/search", "model reply " + abbreviate(model, 200)
-	}
 	searched := 0
 	if len(ids) > 0 {
 		searched = int(math.Round(real.PercentSearched * float64(len(ids)) / 100))
 	}
-	if strings.Join(rb, ",") != strings.Join(distBits(mf[0]+" "+mf[1]), ",") || mf[2] != fmt.Sprintf("n=%d", searched) {
-		return "tie/lsh/search", fmt.Sprintf("K=%d R=%v filter=%s: implementation distances %v searched=%d, model %s", K, R, f.name, rb, searched, abbreviate(model, 300))
+	if len(mf) != 3 {
+		tieSig, tieDetail = "tie/lsh/search", "model reply "+abbreviate(model, 200)
+	} else if strings.Join(rb, ",") != strings.Join(distBits(mf[0]+" "+mf[1]), ",") || mf[2] != fmt.Sprintf("n=%d", searched) {
+		tieSig, tieDetail = "tie/lsh/search", fmt.Sprintf("K=%d R=%v filter=%s: implementation distances %v searched=%d, model %s", K, R, f.name, rb, searched, abbreviate(model, 300))
 	}
 	// direct oracles (C04)
 	tmp := NewResult("C04", "", 0, "")
@@ -686,7 +740,8 @@ func searchTie(drv *Driver, hp *hpTable, c *syzgydb.Collection, sc *lshScenario,
 			return "C04/single-leaf-differs-from-exact", fmt.Sprintf("single-leaf collection (%d docs): default search distances %v, exact %v", len(ids), rb, eb)
 		}
 	}
-	return "", ""
+	// the oracles found nothing wrong with this search: report the model divergence, if any
+	return tieSig, tieDetail
 }
 
 func lshMain(prop string) func(o *Opts) {
